@@ -292,7 +292,11 @@ impl Property for C17 {
             world.normalize();
             Case { label: p.label, program: p.program, aux: p.aux, world, plan }
         } else {
-            let p = if rng.chance(1, 4) { programs::pick_w4(ctx, rng) } else { programs::pick_w1(ctx, rng) };
+            let p = match rng.below(8) {
+                0 | 1 => programs::pick_w4(ctx, rng),
+                2 => if rng.chance(1, 2) { programs::pick_w5(rng) } else { programs::pick_w6(rng) },
+                _ => programs::pick_w1(ctx, rng),
+            };
             let reference = ctx.reference(worker, &p.program);
             let mut world = World::random(rng, WORLD_DIMS);
             if rng.chance(1, 3) {
@@ -480,6 +484,15 @@ fn check_w1(ctx: &Ctx, worker: usize, case: &Case) -> Outcome {
             pre.push(b':');
             if cmp_stderr && !r.stderr.starts_with(&pre) {
                 bad.push("exit 103 but stderr does not start with '<path as given>:'".to_string());
+            } else if cmp_stderr {
+                // located form, unless the script could not be read at all
+                let first = r.stderr.split(|b| *b == b'\n').next().unwrap_or(b"");
+                let rest = String::from_utf8_lossy(&first[pre.len().min(first.len())..]).to_string();
+                let unreadable = rest.starts_with(" couldn't read script") || rest.starts_with(" couldn't get current directory");
+                if !unreadable && crate::props::c03::parse_located(first, &r.argv1).is_none() {
+                    bad.push("exit 103 but the first stderr line is not '<path as given>:<line>:<col>: <message>'".to_string());
+                    out.probes.push("w1-unlocated-diagnostic".into());
+                }
             }
         }
         _ => {}
